@@ -38,6 +38,7 @@ type Parser struct {
 	cursor        int
 	line          int
 	blockHandlers map[string]blockHandlerFunc
+	blockNames    map[string]int // block name -> line of its definition in the template being parsed
 }
 
 type blockHandlerFunc func(*Parser) (Node, error)
@@ -55,6 +56,7 @@ func (p *Parser) Parse(source string) (Node, error) {
 	p.cursor = 0
 	p.line = 1
 	p.tokenIndex = 0
+	p.blockNames = nil
 
 	// Initialize default block handlers
 	p.initBlockHandlers()
